@@ -133,8 +133,8 @@ SourceEdit(s, newStatus, nm) ==
         /\ stale' = IF reaches THEN ErrorChange(stale) ELSE stale
         /\ costNode' = IF reaches THEN SwitchCost ELSE costNode
         /\ implicitNoErr' = IF reaches THEN FALSE ELSE implicitNoErr
+        /\ didFit' = IF reaches THEN FALSE ELSE didFit          \* _on_error_change resets the minimiser: the fit is no longer "done"
   /\ status' = [status EXCEPT ![s] = newStatus]
-  /\ didFit' = didFit
   /\ act' = [name |-> nm, n |-> s] /\ obs' = [kind |-> "none"]
   /\ UNCHANGED <<frozen, cons, pidx, fixed, limited, dataSet, ownSrc>>
 
@@ -197,8 +197,9 @@ SetData(d) ==
      IN /\ stale' = MarkFrom(marks, stale)
         /\ costNode' = IF sw THEN GCostCov ELSE IF implicitNoErr THEN costNode ELSE SwitchCost
         /\ implicitNoErr' = IF sw THEN FALSE ELSE implicitNoErr
+        /\ didFit' = IF sw THEN FALSE ELSE didFit           \* leaving the no-errors cost function goes through _on_error_change
   /\ act' = [name |-> "SetData", d |-> d] /\ obs' = [kind |-> "none"]
-  /\ UNCHANGED <<frozen, cons, pidx, fixed, limited, didFit>>
+  /\ UNCHANGED <<frozen, cons, pidx, fixed, limited>>
 
 -----------------------------------------------------------------------------
 (* do_fit, as the code performs it *)
